@@ -18,7 +18,7 @@ SRC = '''
 import math
 from xdeps.madxutils import MadxEnv, MadxEval
 import xdeps
-VARS = {"a": 1.5, "b": -2.0, "c.d": 0.5, "k1": 3.0, "z": 0.0}
+VARS = {"a": 1.5, "b": -2.0, "c.d": 0.5, "k1": 3.0, "z": 0.0, "n": 3, "p": 10}
 ELS = {"q1": {"k1": 0.25, "l": 2.0}, "m.b": {"angle": -0.125, "l": 0.0}}
 def mkenv_fresh():
     env = MadxEnv()
@@ -38,10 +38,18 @@ def mkenv():
     for k, v in ELS.items():
         env._elements[k].clear(); env._elements[k].update(v)
     return env
+def num(x):
+    """the value as Python sees it (numpy scalars unwrapped); NOT converted to float: 3**40 and 3.0**40 are different numbers"""
+    x = x.item() if hasattr(x, "item") and not isinstance(x, (int, float)) else x
+    if isinstance(x, bool) or not isinstance(x, (int, float)):
+        return float(x)
+    return x
 def same(x, y):
     try:
         if x != x and y != y:
             return True
+        if isinstance(x, int) or isinstance(y, int):
+            return x == y               # exact (Python compares int with float exactly)
         return abs(x - y) <= 1e-12 * max(1.0, abs(x), abs(y))
     except TypeError:
         return x == y
@@ -50,14 +58,14 @@ def three(env, s, mirror=None, ns=None):
     out = []
     for f in (lambda: val(env.madexpr(s)), lambda: env.madeval(s)):
         try:
-            out.append(float(f()))
+            out.append(num(f()))
         except ZeroDivisionError:
             out.append("ZeroDivisionError")
         except Exception as ex:
             out.append(type(ex).__name__)
     if mirror is not None:
         try:
-            out.append(float(eval(mirror, {"math": math}, ns)))
+            out.append(num(eval(mirror, {"math": math}, ns)))
         except ZeroDivisionError:
             out.append("ZeroDivisionError")
         except Exception as ex:
@@ -87,7 +95,7 @@ def pyns(env):
 '''
 exec(SRC)
 
-ATOMS = [("1", "1"), ("2.5", "2.5"), ("1e-3", "1e-3"), (".5", ".5"), ("3.", "3."), ("a", "a"), ("b", "b"), ("c.d", "c_dot_d"), ("k1", "k1"), ("z", "z"),
+ATOMS = [("0", "0"), ("1", "1"), ("2.5", "2.5"), ("1e-3", "1e-3"), (".5", ".5"), ("3.", "3."), ("a", "a"), ("b", "b"), ("c.d", "c_dot_d"), ("k1", "k1"), ("z", "z"), ("n", "n"),
          ("q1->k1", "el_q1['k1']"), ("m.b->angle", "el_m_dot_b['angle']"), ("q1->l", "el_q1['l']"), ("m.b->l", "el_m_dot_b['l']"),
          ("undefined_var", "0")]
 
@@ -148,7 +156,7 @@ def main():
                 env._eref["q1"]["k1"] = env._elements["q1"]["k1"] + 1.0
                 scr += f"env._vref[{ch[0]!r}] = {ch[1]!r}; env._eref['q1']['k1'] = env._elements['q1']['k1'] + 1.0\n"
             try:
-                d = float(val(ex))
+                d = num(val(ex))
             except Exception as e2:     # noqa
                 d = type(e2).__name__
             vals = three(env, s, mirror, pyns(env))
@@ -189,6 +197,38 @@ def main():
                 rac.fail(f"literals {s1} {s2}", f"C19 {s1!r} then {s2!r} from one evaluator: deferred/immediate {v[:2]} and {v[2:]}",
                          PRELUDE + SRC + f"env = mkenv()\ne1 = env.madexpr({s1!r}); e2 = env.madexpr({s2!r})\nv = [val(e1), env.madeval({s1!r}), val(e2), env.madeval({s2!r})]\nprint(v)\n"
                          "assert same(v[0], v[1]) and same(v[2], v[3]), v\n", "MadxEval.eval")
+    rac.section("integers+zero-factors", "integer-valued variables under large powers (exact integer vs floating result, overflow), and factors "
+                "that are literally zero in front of a sub-expression that raises or becomes NaN once a variable is set to 0 through the "
+                "manager: deferred == immediate (NaN where a division by zero raises), initially and after each change",
+                "22 strings x 4 changes")
+    crafted = ["n^40", "p^400", "n^40.0", "(n*p)^20", "n**64", "2^62*n", "n^2", "p^-2", "n^0.5", "(n+p)^30/n^30",
+               "0*(a/z)", "(a/z)*0", "0*(a/b)", "0.0*(k1/b)+a", "0*sqrt(b)", "sqrt(b)*0", "0*(p^400)", "a+0*(1/z)", "0*q1->k1/z", "-0*(a/z)",
+               "(a/z)*0.0", "0*(a/(b+2))"]
+    for s in crafted:
+        env = mkenv()
+        hp = "^" in s or "**" in s
+        scr = PRELUDE + SRC + f"env = mkenv()\ns = {s!r}\nex = env.madexpr(s)\nhp = {hp!r}\ndef chk(label):\n    try:\n        d = num(val(ex))\n    except Exception as e2:\n        d = type(e2).__name__\n" \
+            "    vals = three(env, s); print(label, [d] + vals)\n    assert agree(vals, hp) and agree([d, vals[1]], hp), (label, [d] + vals)\nchk('initially')\n"
+        try:
+            ex = env.madexpr(s)
+        except Exception:      # noqa
+            continue
+        bad = None
+        for label, ch in [("initially", None)] + [(f"after {k} = {v}", (k, v)) for k, v in changes + [("n", 7), ("z", 0.0)]]:
+            if ch is not None:
+                env._vref[ch[0]] = ch[1]
+                scr += f"env._vref[{ch[0]!r}] = {ch[1]!r}; chk({label!r})\n"
+            try:
+                d = num(val(ex))
+            except Exception as e2:     # noqa
+                d = type(e2).__name__
+            vals = three(env, s)
+            if not agree(vals, hp) or not agree([d, vals[1]], hp):
+                bad = (label, [d] + vals)
+                break
+        rac.case(("crafted", s), sample=s)
+        if bad:
+            rac.fail("crafted " + s, f"C19 {s!r} {bad[0]}: expression built earlier / deferred / immediate give {bad[1]}", scr, "MadxEval")
     return rac.finish()
 
 
